@@ -178,7 +178,8 @@ Record linv (ds : list dep) (mk : bool) (code : Z) (r : jst) : Prop := {
   l_F : (exists i, nth_error (cur r) i = Some DFAIL) -> finished (st r) = true;
   l_held : held r <> [] -> pc r = PWoken ALockIn \/ pc r = PExt ALockOutAbort \/ pc r = PWoken ALockOutAbort \/ in_run (pc r) = true;
   l_WR : pc r = PWokenReady -> ev r = true;
-  l_RS : st r = READY -> started (pc r) = true
+  l_RS : st r = READY -> started (pc r) = true;
+  l_WS : pc r = PWokenReady -> st r = READY \/ st r = ERROR
 }.
 
 Lemma linv_jst0 : forall ds mk code, linv ds mk code jst0.
@@ -245,6 +246,13 @@ Proof.
   - intros P. destruct Ap as [E|(_&_&_&E)]; auto.
     rewrite E in P. apply Ae. apply (l_WR L P).
   - intros R. destruct PC as [E|(_&E&_)]; rewrite E; auto.
+  - intros P. destruct Ap as [E|(P0&_&E0&E1)].
+    + rewrite E in P. destruct (l_WS L P) as [X|X].
+      * destruct As as [Y|[(_&Y&_)|(_&Y&_)]]; auto. left; congruence.
+      * right. rewrite FIN; rewrite X; auto.
+    + destruct (l_EV L P0) as (_ & W0 & _).
+      destruct As as [Y|[(_&Y&_)|(_&Y&_)]]; auto.
+      destruct Aes as [Z|[Z|Z]]; auto. congruence.
 Qed.
 
 (* ------------------------------------------------------------------ the coroutine's own steps (job-local part) *)
@@ -328,7 +336,8 @@ Record reginv (n : nat) (r : jst) : Prop := {
   ri_pc : pc r = PSpawned;
   ri_st : (st r = WAITING /\ ev r = false /\ uns r <> 0) \/ (st r = READY /\ ev r = true /\ uns r = 0)
           \/ (st r = ERROR /\ ev r = true /\ fdep r = true);
-  ri_F : (exists i, nth_error (cur r) i = Some DFAIL) -> st r = ERROR
+  ri_F : (exists i, nth_error (cur r) i = Some DFAIL) -> st r = ERROR;
+  ri_fd : fdep r = true -> exists i, nth_error (cur r) i = Some DFAIL
 }.
 
 Lemma count_nok_wait : forall l i, nth_error l i = Some DWAIT -> (count_nok l > 0)%nat.
@@ -345,7 +354,7 @@ Lemma reginv_check : forall n r i new r' w, reginv n r -> nth_error (cur r) i = 
 Proof.
   intros n r i new r' w R N H. apply check_l_async in H. destruct H as (A & _ & E & C & _).
   destruct (C _ N) as (Cc & Cu & Cf). clear C.
-  destruct A as [Ah Al Ap Ae As Afd Alen Aw Aes Au0 Af2]. destruct R as [Rl Ru Rla Rh Rp Rs Rf].
+  destruct A as [Ah Al Ap Ae As Afd Alen Aw Aes Au0 Af2]. destruct R as [Rl Ru Rla Rh Rp Rs Rf Rfd].
   assert (U' : uns r' = Z.of_nat (count_nok (cur r'))).
   { rewrite Cc, Cu, Ru. symmetry. apply count_nok_replace; auto. }
   split; auto. constructor; auto; try congruence.
@@ -367,6 +376,11 @@ Proof.
       destruct Rs as [(S&_)|[(S&_&U)|(S&_)]]; try congruence; rewrite X, S in F; discriminate.
     + assert (S : st r = ERROR) by (apply Rf; eauto).
       destruct As as [X|[(X&_)|(X&_)]]; try congruence; rewrite S in X; discriminate.
+  - intros FD. rewrite Cc. destruct Af2 as [X|(NF & X)].
+    + rewrite X in FD. destruct (Rfd FD) as (k & Hk). exists k. rewrite nth_error_replace.
+      destruct (Nat.eqb i k) eqn:Ek; auto. apply Nat.eqb_eq in Ek. subst k. congruence.
+    + destruct (E X) as [Y|Y]; [rewrite Y in NF; discriminate|]. subst new. exists i.
+      rewrite nth_error_replace, Nat.eqb_refl, N. auto.
 Qed.
 
 Lemma replace_nth_app : forall A (done : list A) v x tl, replace_nth (length done) v (done ++ x :: tl) = done ++ v :: tl.
@@ -424,7 +438,10 @@ Lemma spawn_l_ok : forall ds mk code r news,
   (snd p = true <-> (past_loop (pc (fst p)) = true /\ st (fst p) <> DONE)) /\
   (st (fst p) = READY -> forall i d, nth_error news i = Some d -> d = DOK) /\
   held (fst p) = [] /\ launches (fst p) = 0%nat /\
-  (st (fst p) = DONE -> mk = true).
+  (st (fst p) = DONE -> mk = true) /\
+  (in_start (pc (fst p)) = true -> st (fst p) = READY) /\
+  (fdep (fst p) = true -> exists i, nth_error news i = Some DFAIL) /\
+  counted (pc (fst p)) = true.
 Proof.
   intros ds mk code r news L P Len p.
   assert (NS : started (pc r) = false) by (rewrite P; auto).
@@ -440,13 +457,15 @@ Proof.
       + rewrite Uc; auto.
       + rewrite Uc; simpl; auto.
       + intros (i & Hi). rewrite Uc in Hi. destruct i; discriminate.
+      + intros X. congruence.
     - rewrite <- En in *. apply (@reg_l_ok news (length news) _ []); simpl; auto.
       constructor; simpl; auto.
       + apply repeat_length.
       + rewrite count_nok_repeat; auto.
       + left. repeat split; auto. rewrite En. simpl. lia.
-      + intros (i & Hi). apply nth_error_In in Hi. apply repeat_spec in Hi. discriminate. }
-  destruct R1 as (R1 & C1). destruct R1 as [Rl Ru Rla Rh Rp Rs Rf].
+      + intros (i & Hi). apply nth_error_In in Hi. apply repeat_spec in Hi. discriminate.
+      + intros X. congruence. }
+  destruct R1 as (R1 & C1). destruct R1 as [Rl Ru Rla Rh Rp Rs Rf Rfd].
   set (r2 := if mk then w_st r1 DONE else r1).
   assert (M2 : lmid ds mk code r2).
   { subst r2. destruct mk; constructor; simpl; auto; try congruence; try lia.
@@ -473,8 +492,14 @@ Proof.
   { rewrite S_held. subst r2. destruct mk; simpl; auto. }
   split.
   { rewrite S_l. subst r2. destruct mk; simpl; auto. }
-  rewrite S_st. subst r2. destruct mk; simpl; auto.
-  intros D. destruct Rs as [(S&_)|[(S&_)|(S&_)]]; congruence.
+  split.
+  { rewrite S_st. subst r2. destruct mk; simpl; auto.
+    intros D. destruct Rs as [(S&_)|[(S&_)|(S&_)]]; congruence. }
+  split.
+  { rewrite S_st. destruct S_pc as [(X&_)|[(X&_)|(X&Y)]]; rewrite X; simpl; auto; discriminate. }
+  split.
+  { rewrite S_fdep. rewrite <- C1. subst r2. destruct mk; simpl; auto. }
+  destruct S_pc as [(X&_)|[(X&_)|(X&_)]]; rewrite X; auto.
 Qed.
 
 (* the other steps of the coroutine, job-local part *)
@@ -565,7 +590,7 @@ Qed.
 (* a change of program counter that keeps the class of the job *)
 Lemma linv_deliver : forall ds mk code r a, linv ds mk code r -> pc r = PExt a -> linv ds mk code (w_pc r (PWoken a)).
 Proof.
-  intros ds mk code r a [A D EV CI L1 RUN L2 L0 MK E EN UN F H WR RS] P.
+  intros ds mk code r a [A D EV CI L1 RUN L2 L0 MK E EN UN F H WR RS WS] P.
   constructor; simpl; auto; try discriminate; rewrite P in *; simpl in *;
     try (destruct a; simpl in *; auto; fail).
   - intros X. destruct (EN X) as [Y|Y]; [discriminate|]. right. destruct a; auto.
@@ -576,26 +601,26 @@ Ltac pcc := intros; try (intuition (try discriminate; try congruence; auto); fai
 
 Lemma linv_lockoutrun : forall ds mk code r, linv ds mk code r -> pc r = PWoken ALockOutRun -> linv ds mk code (w_pc r (PExt AProc)).
 Proof.
-  intros ds mk code r [A D EV CI L1 RUN L2 L0 MK E EN UN F H WR RS] P.
+  intros ds mk code r [A D EV CI L1 RUN L2 L0 MK E EN UN F H WR RS WS] P.
   constructor; simpl; rewrite P in *; simpl in *; pcc.
 Qed.
 
 Lemma linv_returned : forall ds mk code r, linv ds mk code r -> pc r = PWoken ADoneH -> linv ds mk code (w_pc r (PReturned (st r))).
 Proof.
-  intros ds mk code r [A D EV CI L1 RUN L2 L0 MK E EN UN F H WR RS] P.
+  intros ds mk code r [A D EV CI L1 RUN L2 L0 MK E EN UN F H WR RS WS] P.
   constructor; simpl; rewrite P in *; simpl in *; pcc.
 Qed.
 
 Lemma linv_spawned : forall ds mk code r, linv ds mk code r -> pc r = PNot -> linv ds mk code (w_pc r PSpawned).
 Proof.
-  intros ds mk code r [A D EV CI L1 RUN L2 L0 MK E EN UN F H WR RS] P.
+  intros ds mk code r [A D EV CI L1 RUN L2 L0 MK E EN UN F H WR RS WS] P.
   assert (U := UN). rewrite P in U. simpl in U. destruct (U eq_refl) as (U1&U2&U3&U4&U5&U6).
   constructor; simpl; auto; try discriminate; try congruence; try lia;
     try (intros X; rewrite U5 in X; destruct X as [i X]; destruct i; discriminate).
 Qed.
 Lemma linv_dup : forall ds mk code r k, linv ds mk code r -> pc r = PNot -> linv ds mk code (w_pc r (PDup k)).
 Proof.
-  intros ds mk code r k [A D EV CI L1 RUN L2 L0 MK E EN UN F H WR RS] P.
+  intros ds mk code r k [A D EV CI L1 RUN L2 L0 MK E EN UN F H WR RS WS] P.
   assert (U := UN). rewrite P in U. simpl in U. destruct (U eq_refl) as (U1&U2&U3&U4&U5&U6).
   constructor; simpl; auto; try discriminate; try congruence; try lia;
     try (intros X; rewrite U5 in X; destruct X as [i X]; destruct i; discriminate).
@@ -625,13 +650,13 @@ Lemma linv_launch : forall ds mk code r hd, linv ds mk code r -> pc r = PWoken A
   linv ds mk code (w_pc (w_st (w_launches (w_held r hd) (S (launches (w_held r hd)))) RUNNING) (PExt ALockOutRun)).
 Proof.
   intros ds mk code r hd L P. destruct (lockin_facts L P) as (L0 & MK & NE & ND & NF).
-  destruct L as [A D EV CI L1 RUN L2 L0' MK' E EN UN F H WR RS].
+  destruct L as [A D EV CI L1 RUN L2 L0' MK' E EN UN F H WR RS WS].
   constructor; simpl; rewrite P in *; simpl in *; rewrite ?L0; pcc.
 Qed.
 
 Lemma linv_held : forall ds mk code r hd, linv ds mk code r -> pc r = PWoken ALockIn -> linv ds mk code (w_held r hd).
 Proof.
-  intros ds mk code r hd [A D EV CI L1 RUN L2 L0' MK' E EN UN F H WR RS] P.
+  intros ds mk code r hd [A D EV CI L1 RUN L2 L0' MK' E EN UN F H WR RS WS] P.
   constructor; simpl; rewrite P in *; simpl in *; pcc.
 Qed.
 
@@ -639,13 +664,13 @@ Lemma linv_toabort : forall ds mk code r, linv ds mk code r -> pc r = PWoken ALo
   linv ds mk code (w_pc r (PExt ALockOutAbort)).
 Proof.
   intros ds mk code r L P. destruct (lockin_facts L P) as (L0 & MK & NE & ND & NF).
-  destruct L as [A D EV CI L1 RUN L2 L0' MK' E EN UN F H WR RS].
+  destruct L as [A D EV CI L1 RUN L2 L0' MK' E EN UN F H WR RS WS].
   constructor; simpl; rewrite P in *; simpl in *; rewrite ?L0; pcc.
 Qed.
 
 Lemma linv_release : forall ds mk code r, linv ds mk code r -> started (pc r) = true -> linv ds mk code (w_held r []).
 Proof.
-  intros ds mk code r [A D EV CI L1 RUN L2 L0' MK' E EN UN F H WR RS] S.
+  intros ds mk code r [A D EV CI L1 RUN L2 L0' MK' E EN UN F H WR RS WS] S.
   constructor; simpl; pcc.
 Qed.
 
